@@ -104,7 +104,7 @@ class C24(Spec):
                    'parallel_deriv_color needs MPI and is out of scope; multi-seed soundness is the union lemma']
 
     def gen(self, tier, rng):
-        n = 90 if tier == 'quick' else 700
+        n = 75 if tier == 'quick' else 700
         cases = []
         for k in range(n):
             cpl = (k % 5 == 4)
